@@ -1064,17 +1064,41 @@ func (p *Prog) ownerChain(fn *ssa.Function) []*ssa.Function {
 	return chain
 }
 
-// ownedByAny reports whether fn, or a function on whose behalf it exclusively runs, is named in allowed.
+// ownedByAny reports whether fn is named in allowed, or is a private helper (unexported, never
+// used as a value, every use a synchronous call or defer from its own package) every caller of
+// which is, in the same sense, owned by a function named in allowed. A helper shared by two
+// allowed functions runs only on their behalf just as a helper of one of them does.
 func (p *Prog) ownedByAny(fn *ssa.Function, allowed []string) bool {
-	for _, f := range p.ownerChain(fn) {
-		nm := shortName(f)
-		for _, a := range allowed {
-			if a == nm {
-				return true
-			}
+	return p.ownedByAnyDepth(declaredParent(fn), allowed, 0)
+}
+
+func (p *Prog) ownedByAnyDepth(fn *ssa.Function, allowed []string, depth int) bool {
+	nm := shortName(fn)
+	for _, a := range allowed {
+		if a == nm {
+			return true
 		}
 	}
-	return false
+	if depth >= 4 || fn.Object() == nil || fn.Object().Exported() || fn.Synthetic != "" {
+		return false
+	}
+	ci := callIndexOf(p)
+	if ci.asValue[fn] || len(ci.callers[fn]) == 0 {
+		return false
+	}
+	for _, r := range ci.callers[fn] {
+		if r.Kind == "go" || funcPkgPath(r.In) != funcPkgPath(fn) {
+			return false
+		}
+		o := declaredParent(r.In)
+		if o == fn {
+			continue // recursion
+		}
+		if !p.ownedByAnyDepth(o, allowed, depth+1) {
+			return false
+		}
+	}
+	return true
 }
 
 // branchDominates: instruction in is reached only through a CFG edge whose edge facts satisfy
